@@ -291,7 +291,7 @@ def memory_hierarchies(draw, wl, levels=(2, 3), finite_tp=False, fusion=True, gl
         # capacity = vals values plus half a value: binds just like an integral capacity but no tile
         # combination fills it exactly (exact fits hit a known float32 rounding finding, see
         # known_findings.json C08 exact-fit); pass exact_sizes=True to generate integral capacities
-        size = "inf" if vals == "inf" else (vals * bits if exact_sizes else vals * bits + max(1, bits // 2))
+        size = "inf" if vals == "inf" else (vals * bits if exact_sizes else vals * bits + bits / 2)
         may_keep = draw(st.sampled_from(["All", "All", "Inputs", "Outputs", "~Inputs"]))
         keep = draw(st.sampled_from(["Nothing", "Nothing", "Nothing", "Outputs & " + may_keep])) if may_keep != "Inputs" else "Nothing"
         if li == 0 and main_keep != "All":
